@@ -81,6 +81,10 @@ def gen_desc(rng):
                     sts = pargen.gen_upstream_stage(rng, a, 'u%d' % (j + 1), True)
                     if sts[0]['op'] == 'cache':
                         continue
+                    for st_ in sts:
+                        # every partner dataset gets its own id (and key) range
+                        if st_['op'] in ('concat', 'zip', 'intersperse'):
+                            st_['offset'] = 100 * (j + 1) + (50 if st_['op'] == 'zip' else 0)
                 b = a
                 for st in sts:
                     b = pargen.abs_apply(b, st) if b is not None else None
